@@ -4,6 +4,8 @@ package net
 
 import (
 	"bytes"
+	"io"
+	"time"
 
 	"github.com/lugu/qiloop/internal/zzverif/sym"
 )
@@ -16,7 +18,13 @@ func C08Message() {
 	enc := c01Layout(hdr, payload)
 	k := sym.Concrete(sym.Int("cut", 0, len(enc)-1))
 	var m Message
-	err := m.Read(bytes.NewReader(enc[:k]))
+	// the truncated stream is a buffer, or a connection-like reader (it has deadlines, as every
+	// transport the end points read from has)
+	var src io.Reader = bytes.NewReader(enc[:k])
+	if sym.Bool("connection-like-reader") {
+		src = &zzDeadlineReader{r: bytes.NewReader(enc[:k])}
+	}
+	err := m.Read(src)
 	sym.Assert(err != nil, "truncated-message")
 	sym.Reach("cut-checked")
 }
@@ -35,3 +43,11 @@ func C07Message() {
 		}
 	})
 }
+
+// zzDeadlineReader: a reader with the deadline methods of a net.Conn (they accept anything).
+type zzDeadlineReader struct{ r io.Reader }
+
+func (d *zzDeadlineReader) Read(p []byte) (int, error)         { return d.r.Read(p) }
+func (d *zzDeadlineReader) SetReadDeadline(t time.Time) error  { return nil }
+func (d *zzDeadlineReader) SetDeadline(t time.Time) error      { return nil }
+func (d *zzDeadlineReader) SetWriteDeadline(t time.Time) error { return nil }
